@@ -1,6 +1,7 @@
 """Webhook decorator."""
 
 import logging
+from typing import ClassVar
 
 from aiohttp import hdrs
 import voluptuous as vol
@@ -36,6 +37,8 @@ class WebhookTriggerDecorator(TriggerDecorator, ExpressionDecorator, AutoKwargsD
     local_only: bool
     methods: set[str]
     _registered: bool = False
+    # Home Assistant accepts one handler per webhook id: the decorators of one id share a registration
+    _subscribers: ClassVar[dict[str, list["WebhookTriggerDecorator"]]] = {}
 
     async def validate(self):
         """Validate the webhook trigger configuration."""
@@ -64,18 +67,30 @@ class WebhookTriggerDecorator(TriggerDecorator, ExpressionDecorator, AutoKwargsD
 
         await self.dispatch(DispatchData(func_args))
 
+    @staticmethod
+    async def _fan_out(hass, webhook_id, request):
+        """Hand a message to every decorator subscribed to its webhook id."""
+        for dec in list(WebhookTriggerDecorator._subscribers.get(webhook_id, [])):
+            try:
+                await dec._handler(hass, webhook_id, request)
+            except Exception as exc:  # pylint: disable=broad-except
+                _LOGGER.error("webhook trigger %s: %s", dec.dm.name, exc)
+
     async def start(self):
         """Start the webhook trigger."""
         await super().start()
-        webhook.async_register(
-            self.dm.hass,
-            "pyscript",  # DOMAIN
-            "pyscript",  # NAME
-            self.webhook_id,
-            self._handler,
-            local_only=self.local_only,
-            allowed_methods=self.methods,
-        )
+        if self.webhook_id not in WebhookTriggerDecorator._subscribers:
+            webhook.async_register(
+                self.dm.hass,
+                "pyscript",  # DOMAIN
+                "pyscript",  # NAME
+                self.webhook_id,
+                WebhookTriggerDecorator._fan_out,
+                local_only=self.local_only,
+                allowed_methods=self.methods,
+            )
+            WebhookTriggerDecorator._subscribers[self.webhook_id] = []
+        WebhookTriggerDecorator._subscribers[self.webhook_id].append(self)
         self._registered = True
 
         _LOGGER.debug("webhook trigger %s listening on id %s", self.dm.name, self.webhook_id)
@@ -86,4 +101,8 @@ class WebhookTriggerDecorator(TriggerDecorator, ExpressionDecorator, AutoKwargsD
         # a trigger that never registered must not remove the handler another function registered for this id
         if self._registered:
             self._registered = False
-            webhook.async_unregister(self.dm.hass, self.webhook_id)
+            if self in WebhookTriggerDecorator._subscribers.get(self.webhook_id, []):
+                WebhookTriggerDecorator._subscribers[self.webhook_id].remove(self)
+            if len(WebhookTriggerDecorator._subscribers.get(self.webhook_id, [])) == 0:
+                WebhookTriggerDecorator._subscribers.pop(self.webhook_id, None)
+                webhook.async_unregister(self.dm.hass, self.webhook_id)
